@@ -526,6 +526,10 @@ fn call_lll(ty: Ty, a: &IM, m: usize, n: usize, flag: bool, secs: u64) -> Option
 
 struct Ctx { secs: u64, timeouts: u32, mutate_every: u64, tick: u64 }
 
+fn chk_name(what: &str, k: Kind) -> String {
+    match k { Kind::Z => format!("chk{}", what), Kind::G => format!("chk{}q g", what), Kind::E => format!("chk{}q e", what) }
+}
+
 fn b01(b: bool) -> &'static str { if b { "1" } else { "0" } }
 
 fn desc(what: &str, ty: Ty, flags: &str, a: &IM, m: usize, n: usize) -> String {
@@ -610,15 +614,19 @@ fn hnf_case(s: &mut Sink, cx: &mut Ctx, r: &mut Rng, ty: Ty, a: &IM, m: usize, n
             }
         }
         s.eval_only(&d, m > 1 && n > 0);
-        // Lean: verified checkers on the real outputs, literal model
+        // Lean: verified checkers on the real outputs (all rings), literal model (Z)
+        if let (true, true, Some(p), Some(q)) = (flags[0], flags[1], &p, &q) {
+            if dims_ok(p, m, m) && dims_ok(q, m, m) {
+                let req = format!("{} {} {}{}{}{}{}", chk_name("hnf", k), m, n, im_entries(a, k), im_entries(&h, k), im_entries(p, k), im_entries(q, k));
+                s.case(&req, &verdict_hnf(a, &h, p, q, m, n, k), m > 1);
+                cx.tick += 1;
+                if cx.tick % cx.mutate_every == 0 { mutated_hnf(s, r, a, &h, p, q, m, n, k); }
+            }
+        }
         if k == Kind::Z {
-            if let (true, true, Some(p), Some(q)) = (flags[0], flags[1], &p, &q) {
-                if dims_ok(p, m, m) && dims_ok(q, m, m) {
-                    let req = format!("chkhnf {} {}{}{}{}{}", m, n, im_entries(a, k), im_entries(&h, k), im_entries(p, k), im_entries(q, k));
-                    s.case(&req, &verdict_hnf(a, &h, p, q, m, n, k), m > 1);
-                    cx.tick += 1;
-                    if cx.tick % cx.mutate_every == 0 { mutated_hnf(s, r, a, &h, p, q, m, n); }
-                }
+            if flags == [true, true] && ty == Ty::Big && max_bits(a) <= 70 && m <= 8 {
+                // bookkeeping probe of the model: det/lambda = integral Gram–Schmidt data of P before every iteration
+                s.case(&format!("bookhnf {} {}{}", m, n, im_entries(a, k)), "ok", m > 1);
             }
             let req = format!("runhnf {} {} {} {}{}", b01(flags[0]), b01(flags[1]), m, n, im_entries(a, k));
             let reply = format!("{};{};{}", im_txt(&h, m, n, k),
@@ -630,15 +638,19 @@ fn hnf_case(s: &mut Sink, cx: &mut Ctx, r: &mut Rng, ty: Ty, a: &IM, m: usize, n
 }
 
 /// corrupted outputs: the verified checker must give the same verdict as the harness oracle
-fn mutated_hnf(s: &mut Sink, r: &mut Rng, a: &IM, h: &IM, p: &IM, q: &IM, m: usize, n: usize) {
+fn mutated_hnf(s: &mut Sink, r: &mut Rng, a: &IM, h: &IM, p: &IM, q: &IM, m: usize, n: usize, k: Kind) {
     if m == 0 || n == 0 { return }
-    let k = Kind::Z;
     let (mut h, mut p, mut q) = (h.clone(), p.clone(), q.clone());
     let i = r.below(m as u64) as usize;
     let j = r.below(m as u64) as usize;
     let c = r.below(n as u64) as usize;
-    let kind = r.below(6);
+    let kind = r.below(7);
     match kind {
+        6 => { // consistent multiplication of a row by a unit: pivots leave the normalised sector
+            let u = r.pick(&units(k)).clone();
+            let ui = u.conj(k);
+            for e in h[i].iter_mut() { *e = e.mul(&u, k); } for e in p[i].iter_mut() { *e = e.mul(&u, k); } for row in q.iter_mut() { row[i] = row[i].mul(&ui, k); }
+        }
         0 => { h[i][c] = h[i][c].add(&Zq::one()); }
         1 => { p[i][j] = p[i][j].add(&Zq::one()); }
         2 => { q[i][j] = q[i][j].sub(&Zq::one()); }
@@ -656,15 +668,14 @@ fn mutated_hnf(s: &mut Sink, r: &mut Rng, a: &IM, h: &IM, p: &IM, q: &IM, m: usi
         }
     }
     s.count(&format!("mutated.hnf.{}", kind));
-    let req = format!("chkhnf {} {}{}{}{}{}", m, n, im_entries(a, k), im_entries(&h, k), im_entries(&p, k), im_entries(&q, k));
+    let req = format!("{} {} {}{}{}{}{}", chk_name("hnf", k), m, n, im_entries(a, k), im_entries(&h, k), im_entries(&p, k), im_entries(&q, k));
     let v = verdict_hnf(a, &h, &p, &q, m, n, k);
     s.count(&format!("mutated.verdict.{}", v.replace(' ', ",")));
     s.case(&req, &v, true);
 }
 
-fn mutated_lll(s: &mut Sink, r: &mut Rng, a: &IM, b: &IM, p: &IM, q: &IM, m: usize, n: usize) {
+fn mutated_lll(s: &mut Sink, r: &mut Rng, a: &IM, b: &IM, p: &IM, q: &IM, m: usize, n: usize, k: Kind) {
     if m == 0 || n == 0 { return }
-    let k = Kind::Z;
     let (mut b, mut p, mut q) = (b.clone(), p.clone(), q.clone());
     let i = r.below(m as u64) as usize;
     let j = r.below(m as u64) as usize;
@@ -684,7 +695,7 @@ fn mutated_lll(s: &mut Sink, r: &mut Rng, a: &IM, b: &IM, p: &IM, q: &IM, m: usi
         }
     }
     s.count(&format!("mutated.lll.{}", kind));
-    let req = format!("chklll {} {}{}{}{}{}", m, n, im_entries(a, k), im_entries(&b, k), im_entries(&p, k), im_entries(&q, k));
+    let req = format!("{} {} {}{}{}{}{}", chk_name("lll", k), m, n, im_entries(a, k), im_entries(&b, k), im_entries(&p, k), im_entries(&q, k));
     let v = verdict_lll(a, &b, &p, &q, m, n, k);
     s.count(&format!("mutated.verdict.{}", v.replace(' ', ",")));
     s.case(&req, &v, true);
@@ -738,16 +749,19 @@ fn lll_case(s: &mut Sink, cx: &mut Ctx, r: &mut Rng, ty: Ty, a: &IM, m: usize, n
             if let Some(p) = &p { if dims_ok(p, m, m) { assert!(integral_inverse(p, k) == integral_inverse_rational(p, k), "HARNESS-SELF-CHECK: inverse"); } }
         }
         s.eval_only(&d, m > 1);
+        if let (true, Some(p)) = (flag, &p) {
+            if dims_ok(p, m, m) {
+                // certificate for unimodularity: the harness's exact inverse (zero matrix if none exists → t=0)
+                let q = pinv.clone().unwrap_or_else(|| vec![vec![Zq::zero(); m]; m]);
+                let req = format!("{} {} {}{}{}{}{}", chk_name("lll", k), m, n, im_entries(a, k), im_entries(&b, k), im_entries(p, k), im_entries(&q, k));
+                s.case(&req, &verdict_lll(a, &b, p, &q, m, n, k), m > 1);
+                cx.tick += 1;
+                if cx.tick % cx.mutate_every == 0 { mutated_lll(s, r, a, &b, p, &q, m, n, k); }
+            }
+        }
         if k == Kind::Z {
-            if let (true, Some(p)) = (flag, &p) {
-                if dims_ok(p, m, m) {
-                    // certificate for unimodularity: the harness's exact inverse (identity if none exists → t=0)
-                    let q = pinv.clone().unwrap_or_else(|| vec![vec![Zq::zero(); m]; m]);
-                    let req = format!("chklll {} {}{}{}{}{}", m, n, im_entries(a, k), im_entries(&b, k), im_entries(p, k), im_entries(&q, k));
-                    s.case(&req, &verdict_lll(a, &b, p, &q, m, n, k), m > 1);
-                    cx.tick += 1;
-                    if cx.tick % cx.mutate_every == 0 { mutated_lll(s, r, a, &b, p, &q, m, n); }
-                }
+            if flag && ty == Ty::Big && max_bits(a) <= 70 && m <= 8 {
+                s.case(&format!("booklll {} {}{}", m, n, im_entries(a, k)), "ok", m > 1);
             }
             let req = format!("runlll {} {} {}{}", b01(flag), m, n, im_entries(a, k));
             let reply = format!("{};{}", im_txt(&b, m, n, k),
@@ -996,7 +1010,7 @@ fn main() {
 
     // ---- random stream ------------------------------------------------------------------------
     let max_dim: usize = if thorough { 12 } else { 7 };
-    let (n_hnf, n_lll) = if thorough { (2600, 2200) } else { (420, 360) };
+    let (n_hnf, n_lll) = if thorough { (6000, 5000) } else { (420, 360) };
     let mags = [Mag::Tiny, Mag::Tiny, Mag::Small, Mag::Small, Mag::Medium, Mag::Near53, Mag::Big(0)];
     for it in 0..n_hnf + n_lll {
         if cx.timeouts >= 3 { break }
